@@ -165,6 +165,9 @@ type stackOpts struct {
 	cookiePrefix     string // cfg.Cookie.Prefix (informational; names are configured by the driver as main.go does)
 	ssoCookieName    string // cfg.SSO.SessionCookieName ("" = cookie.Session)
 	ssoDefaultTarget string // cfg.SSO.ServerDefaultRedirectURL ("" = http://wonderwall/default)
+	// the SSO proxy instance of an sso stack (C14: browser histories through proxy + server)
+	proxyIngresses []string // ingresses of the proxy (nil = http://proxy.wonderwall)
+	ssoServerURL   string   // sso.server-url of the proxy ("" = http://wonderwall)
 }
 
 type upstreamRec struct {
@@ -403,9 +406,15 @@ func newStack(o stackOpts) (*stack, error) {
 		src = srv
 		pcfg := *cfg
 		pcfg.Ingresses = []string{"http://proxy.wonderwall"}
+		if len(o.proxyIngresses) > 0 {
+			pcfg.Ingresses = o.proxyIngresses
+		}
 		pcfg.OpenID.ACRValues = o.proxyAcr
 		pcfg.SSO = config.SSO{Enabled: true, Domain: ssoDomain, Mode: config.SSOModeProxy,
 			SessionCookieName: cookie.Session, ServerURL: "http://wonderwall"}
+		if o.ssoServerURL != "" {
+			pcfg.SSO.ServerURL = o.ssoServerURL
+		}
 		pcfg.Redis.Address = "unused:6379" // NewReader -> NewStore would dial; replaced below
 		ph, err := newSSOProxyWithStore(&pcfg, s.crypter, store)
 		if err != nil {
